@@ -49,6 +49,13 @@ LEVEL_TEXT += (
     "vertex predicates see vertex columns only; the query path reads "
     "definitely assigned attributes; predicate selectors inherited by "
     "the periodic classes (open findings).")
+LEVEL_TEXT += (
+    " Added in the second hunting round (DESIGN.md 9.6): "
+    "the three index selectors agree on single indices (Python and "
+    "NumPy integers) and the empty collection; the default side "
+    "predicates are invariant under translation and unit "
+    "(skv/invariance.py); facet midpoints are computed exactly "
+    "(skv/nlite) on every reference cell's facet table (padded facets).")
 LEVEL_NOTE = ("Trusted: numpy unique/concatenate/intersect1d/union1d/"
               "setdiff1d semantics; connectivity tables are coherent (C11).")
 EXPLANATION = "Provenance-tagged symbolic runs of the DOF query code."
